@@ -3,7 +3,7 @@ from hypothesis import strategies as st
 
 from engines.runtime_worker import run_scenario
 from engines.scenarios import ALL, BASE_NAMES, COROUTINE, EXC_NAMES, RETURN_NAMES, accept_delay, cleanup, events, switchinterval
-from vlib.core import Result, TestDef
+from vlib.core import HarnessError, Result, TestDef
 
 ID = "C02"
 LEVEL = "fault_enumeration"
@@ -98,8 +98,7 @@ def judge(sc, obs) -> Result:
     trig = sc["trigger"]
     desc = f"trigger {trig} on {sc['runner']} runner"
     if obs.get("worker_error"):
-        res.fail("worker-error", f"{obs['worker_error']} ({desc})")
-        return res
+        raise HarnessError("scenario worker failed: " + str(f"{obs['worker_error']} ({desc})"))
     if obs.get("hang") or not obs.get("episodes"):
         res.expensive = True
         res.fail("termination-blocked", f"the blocking call did not end within {BOUND}s ({desc}); threads: {obs.get('hang_threads')}")
@@ -107,8 +106,7 @@ def judge(sc, obs) -> Result:
     out = obs["episodes"][0]
     for o in obs.get("ops", []):
         if o.get("error"):
-            res.fail("harness-driver-error", f"{o}")
-            return res
+            raise HarnessError(f"driver thread failed: {o}")
     t_end = out["t_end"]
     specs = {p["id"]: p for p in sc["payloads"]}
     for pid, p in specs.items():
